@@ -9,7 +9,9 @@ import time
 
 import vcommon as vc
 
-ENGINE_DEPS = ["SqlSem.tla", "Engine.tla", "KnownDeviations.tla", "TraceEngine.tla"]
+# GEN depends on the semantics and the state machine only (TraceEngine / KnownDeviations are VAL-side modules: changing
+# them must not invalidate the cached scenario sets)
+ENGINE_DEPS = ["SqlSem.tla", "Engine.tla"]
 
 
 def _steps_key(sc):
@@ -178,6 +180,9 @@ def finish(prop, tier, seed, t0, verdict, events_path, gen_stats, level="model_c
                        "sql": [e.get("sql") for e in trace],
                        "failing_event": {k2: v for k2, v in (ev or {}).items() if k2 != "_history"}}, fh, indent=1)
         violations.append((b, rp))
+    tri = os.path.join(vc.RUN, "triage_%s.txt" % prop)
+    if os.path.exists(tri):
+        os.remove(tri)
     if violations:
         def fmt(v):
             if isinstance(v, list):
